@@ -754,11 +754,13 @@ macro_rules! impl_signed_ints(
         $(
             impl ViewBounds for $int_type {
                 fn view_bounds(self, size: usize) -> Option<(usize, usize)> {
-                    let size = size as $int_type;
-                    if self < -size || self >= size {
+                    // widen first: `size` may not fit into the index type
+                    let index = self as i128;
+                    let size = size as i128;
+                    if index < -size || index >= size {
                         None
                     } else {
-                        let start = clamp(self + size, 0, 2 * size - 1) % size;
+                        let start = clamp(index + size, 0, 2 * size - 1) % size;
                         Some((start as usize, (start + 1) as usize))
                     }
                 }
@@ -773,10 +775,11 @@ macro_rules! impl_unsigned_ints(
         $(
             impl ViewBounds for $int_type {
                 fn view_bounds(self, size: usize) -> Option<(usize, usize)> {
-                    let index = self as usize;
-                    if index >= size {
+                    // compare before narrowing: index may not fit into `usize`
+                    if self as u128 >= size as u128 {
                         None
                     } else {
+                        let index = self as usize;
                         Some((index, index + 1))
                     }
                 }
@@ -793,8 +796,8 @@ macro_rules! impl_range_ints(
                 fn view_bounds(self, size: usize) -> Option<(usize, usize)> {
                     range_bounds(
                         Range {
-                            start: self.start as i64,
-                            end: self.end as i64,
+                            start: self.start as i128,
+                            end: self.end as i128,
                         },
                         size,
                     )
@@ -803,27 +806,27 @@ macro_rules! impl_range_ints(
 
             impl ViewBounds for RangeFrom<$int_type> {
                 fn view_bounds(self, size: usize) -> Option<(usize, usize)> {
-                    range_bounds(RangeFrom { start: self.start as i64 }, size)
+                    range_bounds(RangeFrom { start: self.start as i128 }, size)
                 }
             }
 
             impl ViewBounds for RangeTo<$int_type> {
                 fn view_bounds(self, size: usize) -> Option<(usize, usize)> {
-                    range_bounds(RangeTo { end: self.end as i64 }, size)
+                    range_bounds(RangeTo { end: self.end as i128 }, size)
                 }
             }
 
             impl ViewBounds for RangeInclusive<$int_type> {
                 fn view_bounds(self, size: usize) -> Option<(usize, usize)> {
-                    let start = *self.start() as i64;
-                    let end = *self.end() as i64;
+                    let start = *self.start() as i128;
+                    let end = *self.end() as i128;
                     range_bounds(start..=end, size)
                 }
             }
 
             impl ViewBounds for RangeToInclusive<$int_type> {
                 fn view_bounds(self, size: usize) -> Option<(usize, usize)> {
-                    let end = self.end as i64;
+                    let end = self.end as i128;
                     range_bounds(..=end, size)
                 }
             }
@@ -832,11 +835,11 @@ macro_rules! impl_range_ints(
 );
 impl_range_ints!(u8, i8, u16, i16, u32, i32, u64, i64, usize, isize);
 
-fn range_bounds(bound: impl RangeBounds<i64>, size: usize) -> Option<(usize, usize)> {
+fn range_bounds(bound: impl RangeBounds<i128>, size: usize) -> Option<(usize, usize)> {
     //  (index + size) % size - almost works
     //  0  1  2  3  4  5  6  7  8  9  0  1  2  3  4  5  6  7  8  9
     //-10 -9 -8 -7 -6 -5 -4 -3 -2 -1  0  1  2  3  4  5  6  7  8  9
-    let size = size as i64;
+    let size = size as i128;
     if size == 0 {
         return None;
     }
